@@ -282,7 +282,7 @@ class C14(Engine):
     prop = "C14"
     title = "the MSP430 simulator executes every instruction as the architecture defines"
     quick_budget = 60
-    quick_runs = 2600
+    quick_runs = 5000
     thorough_runs = 20000
     thorough_budget = 900
     variants = ("small",)
